@@ -14,7 +14,8 @@ from vf import core, pipedrive, rvdrive
 from vf.core import Violation
 from vf.gen import cachecfg, rvprog
 from vf.props import c02
-from vf.ref import pipe, rv32
+from vf.ref import frontend, pipe, rv32
+from vf.ref.cache import RefCache
 from vf.ref.bytestore import riscv_store
 
 ID = "C07"
@@ -28,7 +29,11 @@ RULE = ("programs x initial states of C02 (alphabet sequences exhaustively up to
         "reference schedule contains an interlock, a redirect or an ecall drain, or a miss with penalty>0 occurred; "
         "distinct = hash(case)"
         ' The per-step identity is also checked on a simulation object that executed part of another program and was lo'
-        'aded again.')
+        'aded again.'
+        ' A structural cycle-by-cycle model of the latches (cross-checked against the closed-form schedule on every cas'
+        'e) predicts the complete fetch sequence incl. squashed fetches: the fetch log must equal it, and with caches t'
+        'he cycle total must equal schedule + penalties of a reference instruction cache fed that sequence + measured d'
+        'ata-cache misses.')
 ASSUMPTIONS = [
     "the reference schedule (DESIGN.md §1.2) is the statement of 'the documented pipeline'",
     "with miss penalties the step index of each retirement is compared; the counter is compared against steps+penalties",
@@ -54,8 +59,20 @@ def check_schedule(case, stats, detect=True, V=Violation, dcache=None, icache=No
         horizon = ref.recs[-1].W
     else:
         horizon = ref.total_cycles
+    fetched = []
+
+    def log_fetches(sim):
+        im = sim.state.instruction_memory
+        orig = im.read_instruction
+
+        def rec(address, *a, **k):
+            fetched.append(address)
+            return orig(address, *a, **k)
+
+        im.read_instruction = rec      # instance-level recording proxy (harness side)
+
     f = pipedrive.run(case, "five", detect, dcache, icache, max_steps=horizon + (0 if (ref.truncated or ref.fault) else 8),
-                      regs_each_step=not detect)
+                      regs_each_step=not detect, sim_hook=log_fetches if detect else None)
     cached = bool(dcache or icache)
     exp = ref.retire_by_step()
     got = dict(zip(f.retire_step, f.pcs))
@@ -79,6 +96,26 @@ def check_schedule(case, stats, detect=True, V=Violation, dcache=None, icache=No
         for s, c in enumerate(f.cycles_after, 1):
             if c != s:
                 raise V("cycle-counter", case, f"after step {s} the cycle counter reads {c}")
+    if detect and ref.fault is None and not ref.truncated and isinstance(case["prog"], list):
+        # the fetch side of the documented pipeline, squashed fetches included (structural model, cross-checked against
+        # the closed-form schedule first: two formulations of one pipeline must agree before either judges the code)
+        fe = frontend.simulate(case["prog"], [r.e for r in ref.recs])
+        if fe["cycles"] != ref.total_cycles or any(fe["retire"].get(k) != r.W for k, r in enumerate(ref.recs)):
+            raise core.HarnessError(f"reference models disagree on {case['prog']}: structural {fe['cycles']} cycles, closed form {ref.total_cycles}")
+        if fetched != fe["fetches"]:
+            d = next((i for i, (x, y) in enumerate(zip(fetched, fe["fetches"])) if x != y), min(len(fetched), len(fe["fetches"])))
+            raise V("fetch-sequence", case, f"{len(fetched)} fetches, the documented pipeline performs {len(fe['fetches'])}; first difference at fetch #{d}: "
+                    f"{fetched[d:d + 4]} vs {fe['fetches'][d:d + 4]}")
+        if cached:
+            imiss = 0
+            if icache:
+                rc = RefCache(icache["idx"], icache["blk"], icache["ways"], icache["repl"], "ro")
+                imiss = sum(0 if rc.read(a) else 1 for a in fe["fetches"])
+            dmiss = (int(f.dstats["accesses"]) - int(f.dstats["hits"])) if (dcache and f.dstats) else 0
+            want = ref.total_cycles + (icache["pen"] * imiss if icache else 0) + (dcache["pen"] * dmiss if dcache else 0)
+            if f.metrics["cycles"] != want:
+                raise V("total-cycles-with-penalties", case, f"cycle counter {f.metrics['cycles']}; documented pipeline: {ref.total_cycles} cycles + {imiss} instruction-cache "
+                        f"misses x {icache['pen'] if icache else 0} + {dmiss} data-cache misses x {dcache['pen'] if dcache else 0} = {want}")
     return ref, f
 
 
